@@ -538,7 +538,29 @@ type Pair[K comparable, V any] interface{ Put(k K, v V) (V, bool) }
 // to mean, so these cases are held only to "exits, never by an unrecovered panic".
 var c09Corruptions = []string{"config-flip-byte", "config-truncate", "config-empty", "config-binary", "config-is-directory", "config-yaml-shape", "source-flip-byte", "source-truncate", "gomod-flip-byte", "gomod-truncate", "gosum-garbage",
 	"template-flip-byte", "template-truncate", "template-shape", "schema-flip-byte", "schema-truncate", "schema-shape",
+	"source-shape", "source-shape", "no-config-anywhere",
 	"migrate-v2-config", "migrate-flip-byte", "migrate-truncate", "migrate-yaml-shape", "showconfig-flip-byte", "showconfig-yaml-shape"}
+
+// exotic but legal declarations appended to a source file of a package selected with all: true
+var c09SourceShapes = []string{
+	"type _ interface{ M() }\n",
+	"type Outer[T any] interface{ Inner() interface{ Deep(T) T } }\n",
+	"type Rec interface{ Next() Rec; Map() map[Rec][]chan<- Rec }\n",
+	"type EmbedsGeneric interface{ Holder[int]; Extra() }\n\ntype Holder[T any] interface{ Hold(T) }\n",
+	"type WithUnexported interface{ exported(); Exported() }\n",
+	"type FuncHeavy interface{ F(func(func(int) (string, error)) func() chan func()) }\n",
+	"type ManyResults interface{ M() (a, b, c, d, e, f, g, h int, err error) }\n",
+	"type Keywords interface{ M(string_ string, type_ int, func_ bool) (range_ error) }\n",
+	"type Unicode接口 interface{ 方法(参数 string) (结果 error) }\n",
+	"type Anon interface{ M(struct{ A int; B struct{ C []map[string]*int } }) struct{ X, Y float64 } }\n",
+	"type Constraint interface{ ~int | ~string }\n\ntype UsesConstraint[T Constraint] interface{ Do(T) T }\n",
+	"type Cmp[T comparable] interface{ Eq(a, b T) bool }\n\ntype CmpInt = Cmp[int]\n\ntype CmpNamed Cmp[string]\n",
+	"type Variadics interface{ A(...int); B(a int, b ...interface{}) (int, error); C(...func(...int)) }\n",
+	"type Arrays interface{ M([0]int, [1 << 3]string, [len(\"abc\")]bool) }\n",
+	"type EmptyIface interface{}\n\ntype AliasAny = any\n\ntype UsesEmpty interface{ M(EmptyIface, AliasAny) }\n",
+	"type Blank interface{ M(_ int, _ string) (_ int, _ error) }\n",
+	"type CRLF interface{\r\n\tM() error\r\n}\r\n",
+}
 
 const c09V2Config = `with-expecter: true
 inpackage: false
@@ -663,6 +685,13 @@ func c09Corrupt(t world.Tree, kind string, r *core.Rng) world.Tree {
 		trunc("go.mod")
 	case "gosum-garbage":
 		n.Files["go.sum"] = "not a go.sum\n\x00\n"
+	case "source-shape":
+		// into a package selected with all: true (make one so)
+		src := pickSrc()
+		n.Files[src] += "\n" + core.Pick(r, c09SourceShapes)
+		n.Files[".mockery.yml"] = strings.Replace(n.Files[".mockery.yml"], "\"packages\":\n", "\"all\": true\n\"packages\":\n", 1)
+	case "no-config-anywhere":
+		delete(n.Files, ".mockery.yml")
 	case "migrate-v2-config":
 		n.Files[".mockery.yml"] = c09V2Config
 	case "migrate-flip-byte":
